@@ -7,6 +7,10 @@ contain  G1/O1  sandbox trees with prefix-sharing siblings, symlinks (relative /
                 simple_file / glob_file / first_file / foreach_collect under HostContext and
                 HostArchiveContext.  Oracle: whatever provider comes back has its real location at or
                 below the real root (component-wise) and its content is the content of that file.
+                Round 5: every way content leaves a provider - .content, .stream() (first or second), of a
+                plain or a filterable spec with filters (host-side grep pre-filter), the persisted copy
+                (text write / cp of a raw spec, through Hydration or serde.serialize): no line of a file
+                whose real location is outside the root comes out of any of them.
 revisit  G1/O1  the same oracle over a HISTORY in one process: three nested roots, directories / files that are
                 replaced by links (inside, into an outer root, outside) and back, the same datasource object
                 and the same lexical place evaluated again under the same or another of the nested roots.
@@ -21,6 +25,7 @@ persist  G3/O3  the same machinery with '..' routes, save_as forms, slash/space/
                 whole temp area + audit of write-opens/mkdir/cp: everything created lies beneath the
                 output directory, nothing else changes.
 """
+import contextlib
 import fnmatch
 import glob
 import itertools
@@ -28,6 +33,7 @@ import shutil
 import tempfile
 import logging
 import os
+import re
 import shlex
 import sys
 import types
@@ -45,14 +51,19 @@ RULE = ("contain: tree = root R (name generated) with fixed inner files, 0-3 sib
         "missing, /etc/passwd); root handed over plain / with trailing slash / through a symlink / with a "
         "'x/..' detour; probe paths are directed '..' routes (0-6 '..'), routes through links, random "
         "segment lists, with '.'/'//' noise; probes: TextFileProvider, RawFileProvider, simple_file, "
-        "glob_file, first_file, foreach_collect under HostContext / HostArchiveContext. Non-trivial: a "
-        "probe path contains '..' or crosses a symlink and a prefix-sharing sibling exists. "
+        "glob_file, first_file, foreach_collect under HostContext / HostArchiveContext; the spec is plain, "
+        "filterable without filters or filterable with 1-2 filters (on a host the lines then come from the grep "
+        "pre-filter), the providers are read through .content and .stream() in either order and (half of the cases) "
+        "persisted - Hydration observer / dehydrate afterwards, hand-made providers through serde.serialize - "
+        "into an output directory outside the root; every line of every tree file names the file's location. "
+        "Non-trivial: a probe path contains '..' or crosses a symlink and a prefix-sharing sibling exists. "
         "revisit: a history of 3-11 steps against one sandbox with three nested candidate roots (outer, "
         "outer/inner, outer/inner/sub), five directory slots (plain directory or link to any other directory "
         "of the tree, inside / in an outer root / outside) and four file slots (plain file or link); steps = "
         "tree change | evaluation (kind, context class, 1-3 paths spelled relative to the chosen root, with "
         "'..' when the place is not below it) | evaluation of an earlier step's datasource object again "
-        "under the same or another root; 1-2 'hot' slots per history attract most changes and paths. The "
+        "under the same or another root (filters, read order, persisted copy as in contain, per "
+        "evaluation); 1-2 'hot' slots per history attract most changes and paths. The "
         "oracle runs after every evaluation. Non-trivial: an evaluation names a lexical directory from which "
         "an earlier evaluation served content, after a tree change or under another root. "
         "deny: 2-7 specs over the nine factories, items drawn from a fixed tree / command vocabulary (file "
@@ -80,6 +91,10 @@ ASSUMPTIONS = [
     "only grep/cat/cp on sandbox files really run; container engines are the always present "
     "/usr/bin/env and /usr/bin/true (podman/docker are not assumed to exist)",
     "the output directory is fresh and contains no symlinks planted by a third party",
+    "contain/revisit: every line of every generated file carries the file's own (link-free) location, so a line "
+    "found in a filtered listing or in a persisted copy identifies the file it came from; a line without such a "
+    "token is only attributed to /etc/passwd (the one system file the generated links lead to) when it equals "
+    "one of its lines; which lines a filter lets through is not judged here (lines of the right file, no more)",
 ]
 EXCLUDED = [
     "save_as / DatasourceProvider.relative_path containing '..' segments (spec-author constants documented "
@@ -396,7 +411,7 @@ def c_entries(case):
     ents, contents = [], {}
 
     def f(p):
-        c = "LOC<%s>\nsecond line of %s\n" % (p, p.rsplit("/", 1)[-1])
+        c = loc_content(p)
         ents.append({"t": "f", "p": p, "c": c})
         contents[p] = c
     for d in IN_DIRS:
@@ -439,47 +454,171 @@ def c_root(case, base):
     return R
 
 
-def judge_providers(providers, rroot, base, by_real, raw, labels, where=""):
-    """O1 for the providers one evaluation returned: whatever yields content has its real location (now, i.e.
-    right after the evaluation) at or below the real root, and the content is that file's.  Returns
-    (number of providers served from inside, whether one of them was reached through a link or '..')."""
+LOC_RE = re.compile(r"LOC<([^>\n]*)>")
+SYS_FILE = "/etc/passwd"          # the one system file generated links / '..' routes lead to
+_SYS_LINES = []
+
+
+def loc_content(p):
+    """every line of a tree file names the (base-relative, link-free) location it was written at, so that a
+    single line found anywhere - in a filtered listing, in a persisted copy - proves where it came from"""
+    return "LOC<%s> first\nLOC<%s> second line\n" % (p, p)
+
+
+def foreign_origin(line, base, rroot):
+    """positive evidence that `line` is content of a file whose real location is outside the root: it carries
+    the location token of a tree file that is not below `rroot`, or it is a line of SYS_FILE.  None otherwise."""
+    for m in LOC_RE.finditer(line):
+        loc = os.path.join(base, m.group(1))
+        if not ref_inside(loc, rroot):
+            return loc
+    if not _SYS_LINES:
+        try:
+            with open(SYS_FILE, "rb") as fh:
+                _SYS_LINES.extend(l for l in fh.read().decode("utf-8", "replace").splitlines() if l.strip())
+        except (IOError, OSError):
+            pass
+        _SYS_LINES.append("\0never a line\0")
+    if line in _SYS_LINES:
+        return SYS_FILE
+    return None
+
+
+def filter_datasource(ctxcls, pats, attr="f0"):
+    """a filterable spec (with the filters `pats`, possibly none) whose implementation is handed to hand-made
+    providers as their `ds`, the way the factories do it"""
+    from insights.core import spec_factory as sf
+    from insights.core import filters
+    _, Specs, Impl = make_specset({attr: sf.RegistryPoint(filterable=True)},
+                                  {attr: sf.simple_file("/vp-no-such-file", context=ctxcls)})
+    if pats:
+        filters.add_filter(getattr(Specs, attr), list(pats))
+    return getattr(Impl, attr)
+
+
+@contextlib.contextmanager
+def quiet_stderr():
+    """the raw serializer copies with cp, which complains on the inherited stderr about a provider that names
+    a directory; keep that out of the runner's output (file descriptor 2 is put back in any case)"""
+    sys.stderr.flush()
+    saved = os.dup(2)
+    null = os.open(os.devnull, os.O_WRONLY)
+    try:
+        os.dup2(null, 2)
+        yield
+    finally:
+        os.dup2(saved, 2)
+        os.close(null)
+        os.close(saved)
+
+
+def persist_direct(providers, out):
+    """hand-made providers are persisted through the registered serializer (what marshal() calls for every
+    value of a spec); a refusal is fine"""
+    from insights.core.serde import serialize
+    with quiet_stderr():
+        for i, p in enumerate(providers):
+            try:
+                serialize(p, root=os.path.join(out, "data", "direct%d" % i))
+            except Exception:  # noqa - refusals (outside the root, empty after filtering, ...) are never reported
+                pass
+
+
+def judge_archive(out, rroot, base, labels, where=""):
+    """O1 for the persisted copies: no file below the output directory holds a line of a file whose real
+    location is outside the root.  (Where the files are created is the business of `persist`.)"""
+    n = 0
+    for path, text in read_tree_text(out):
+        if is_within(path, os.path.join(out, "data")):
+            n += 1
+        for line in text.splitlines():
+            origin = foreign_origin(line, base, rroot)
+            if origin is not None:
+                raise Violation(
+                    "%sthe persisted copy %s holds content of a file whose real location is outside the root: "
+                    "root=%s, line %r comes from %s" % (
+                        where, os.path.relpath(path, out), os.path.relpath(rroot, base), line[:120],
+                        os.path.relpath(origin, base) if is_within(origin, base) else origin),
+                    root=rroot, archive_file=path, origin=origin)
+    labels.append("persisted-files" if n else "persisted-nothing")
+    return n
+
+
+def judge_providers(providers, rroot, base, by_real, raw, labels, where="", read="content", filtered=False):
+    """O1 for the providers one evaluation returned: whatever yields content - through `.content` or through
+    `.stream()`, in the order `read` says (a stream is only a second way out of the file while nothing has been
+    loaded yet) - has its real location (now, i.e. right after the evaluation) at or below the real root, and
+    the content is that file's (with filters: lines of that file).  Returns (number of providers served from
+    inside, whether one of them was reached through a link or '..')."""
     served_in = 0
     crossing = False
     for p in providers:
         real = os.path.realpath(p.path)
         inside = ref_inside(real, rroot)
-        content = None
-        try:
-            content = p.content
-        except Exception:  # noqa - directory, empty file under HostContext, ...: nothing yielded
-            if not raw:
-                try:
-                    content = list(p.stream())
-                except Exception:  # noqa
-                    pass
-        if content is None:
+        exits = ["content"] if raw else (["stream", "content"] if read == "stream" else ["content", "stream"])
+        got = []
+        for how in exits:
+            try:
+                data = p.content if how == "content" else list(p.stream())
+            except Exception:  # noqa - directory, empty file under HostContext, refusal, ...: nothing yielded
+                continue
+            if data is None:
+                continue
+            got.append((how, data.decode("utf-8", "replace").splitlines() if raw else list(data), data))
+        if not got:
             # a provider object that cannot produce anything yields no content: outside the
             # statement wherever it points
             labels.append("provider-without-content" + ("" if inside else "-outside"))
             continue
-        if not inside:
-            shown = content if content is None or isinstance(content, list) else repr(content[:80])
-            raise Violation(
-                "%sfile provider returned for a path whose real location is outside the root: "
-                "root=%s path=%s -> %s (content served: %r)" % (
-                    where, os.path.relpath(rroot, base), p.relative_path, os.path.relpath(real, base)
-                    if is_within(real, base) else real, shown),
-                root=rroot, path=p.path, real=real)
-        want = by_real.get(real)
-        if want is None:
-            raise Violation("%scontent served for %s which is not a file of the tree" % (where, real))
-        got = content.decode("utf-8") if raw else "\n".join(content) + "\n"
-        if got != want:
-            raise Violation("%scontent of %s differs from the in-root file it resolves to" % (where, p.path),
-                            got=got, want=want)
-        served_in += 1
-        if real != os.path.normpath(p.path):
-            crossing = True
+        # whatever the provider object claims to be: no yielded line is a line of a file outside the root
+        for how, lines, _data in got:
+            for line in lines:
+                origin = foreign_origin(line, base, rroot)
+                if origin is not None:
+                    raise Violation(
+                        "%s%s of a file provider yields a line of a file whose real location is outside the "
+                        "root: root=%s path=%s, line %r comes from %s" % (
+                            where, how, os.path.relpath(rroot, base), p.relative_path, line[:120],
+                            os.path.relpath(origin, base) if is_within(origin, base) else origin),
+                        root=rroot, path=p.path, origin=origin)
+        if os.path.isdir(real):
+            # a directory has no content of its own (a host-side pre-filter answers with grep's complaint
+            # about it): nothing of any file is yielded
+            labels.append("directory-provider-with-output")
+            continue
+        ok = False
+        for how, lines, data in got:
+            if filtered and not lines:
+                labels.append("empty-after-filter")       # (nothing yielded)
+                continue
+            if not inside:
+                raise Violation(
+                    "%sfile provider returned for a path whose real location is outside the root: "
+                    "root=%s path=%s -> %s (%s served: %r)" % (
+                        where, os.path.relpath(rroot, base), p.relative_path, os.path.relpath(real, base)
+                        if is_within(real, base) else real, how, lines if not raw else repr(data[:80])),
+                    root=rroot, path=p.path, real=real)
+            want = by_real.get(real)
+            if want is None:
+                raise Violation("%scontent served for %s which is not a file of the tree" % (where, real))
+            if filtered:
+                # which lines a filter lets through is not this property's business; each is a line of the file
+                alien = [l for l in lines if l not in want.splitlines()]
+                if alien:
+                    raise Violation("%s%s of %s has lines that are not in the in-root file it resolves to"
+                                    % (where, how, p.path), got=lines, want=want)
+            else:
+                text = data.decode("utf-8") if raw else "\n".join(lines) + "\n"
+                if text != want:
+                    raise Violation("%s%s of %s differs from the in-root file it resolves to"
+                                    % (where, how, p.path), got=text, want=want)
+            ok = True
+            labels.append("served-via:" + (how if how == "content" else
+                                           "stream-first" if exits[0] == "stream" else "stream-after-content"))
+        if ok:
+            served_in += 1
+            if real != os.path.normpath(p.path):
+                crossing = True
     return served_in, crossing
 
 
@@ -487,12 +626,16 @@ def check_contain(case):
     from insights.core import spec_factory as sf
     from insights.core.context import HostContext, HostArchiveContext
     from insights.core.plugins import datasource
-    from insights.core import dr
+    from insights.core.serde import Hydration
+    from insights.core import dr, filters
     ents, contents = c_entries(case)
     probe = case["probe"]
     labels = ["kind=" + probe["kind"], "ctx=" + case["ctx"], "rootform=" + case["rootform"]]
+    persist = case.get("persist")           # None | "observer" (persisted while evaluated) | "after"
+    read = probe.get("read", "content")     # which way out of the provider is tried first
     with Sandbox(ents) as sb, GlobalState():
         base = sb.base
+        out = os.path.join(base, "o", "a1", "arch")
         root = c_root(case, base)
         rroot = os.path.realpath(os.path.join(base, c_layout(case)["R"]))
         by_real = dict((os.path.join(base, p), c) for p, c in contents.items())
@@ -500,10 +643,14 @@ def check_contain(case):
             ctxcls, ctx = HostContext, RecordingHostContext(root, real_prefixes=[base])
         else:
             ctxcls, ctx = HostArchiveContext, HostArchiveContext(root)
-        raw = bool(probe.get("raw"))
+        k = probe["kind"]
+        raw = k == "RawFileProvider" if k in H_DIRECT else bool(probe.get("raw"))
         kind = sf.RawFileProvider if raw else sf.TextFileProvider
         providers, rejected = [], 0
-        k = probe["kind"]
+        # a filterable spec with these filters (a raw spec cannot be filtered): on a host the lines come from a
+        # grep over the file, in an archive they are filtered after reading
+        pats = probe.get("filter") if not raw else None
+        labels.append("filter=" + ("none" if pats is None else "filterable-without-filters" if not pats else "some"))
         # what the probe names, classified by the harness (labels only: shows that refusals are earned)
         named = probe.get("paths")
         if named is None:
@@ -522,14 +669,15 @@ def check_contain(case):
                     labels.append("names:prefix-sibling-" + what)
                 else:
                     labels.append("names:outside-" + what)
-        if k in ("TextFileProvider", "RawFileProvider"):
-            cls = sf.RawFileProvider if k == "RawFileProvider" else sf.TextFileProvider
-            raw = k == "RawFileProvider"
+        if k in H_DIRECT:
+            ds = filter_datasource(ctxcls, pats) if pats is not None else None
             for p in probe["paths"]:
                 try:
-                    providers.append(cls(p, root=root, ctx=ctx))
+                    providers.append(kind(p, root=root, ds=ds, ctx=ctx))
                 except Exception:  # noqa - every refusal is fine (ContentException, plain Exception)
                     rejected += 1
+            if persist == "observer":
+                persist_direct(providers, out)
         else:
             if k == "simple_file":
                 ds = sf.simple_file(probe["paths"][0], context=ctxcls, kind=kind)
@@ -547,10 +695,18 @@ def check_contain(case):
             else:
                 raise HarnessError("unknown probe kind %r" % (k,))
             multi = k in ("glob_file", "foreach_collect")
-            _, Specs, Impl = make_specset({"s0": sf.RegistryPoint(multi_output=multi, raw=raw)}, {"s0": ds})
+            _, Specs, Impl = make_specset({"s0": sf.RegistryPoint(multi_output=multi, raw=raw,
+                                                                  filterable=pats is not None)}, {"s0": ds})
+            if pats:
+                filters.add_filter(Specs.s0, list(pats))
             broker = dr.Broker()
             broker[ctxcls] = ctx
-            broker = dr.run(dr.get_dependency_graph(Specs.s0), broker)
+            if persist:
+                hydration = Hydration(out, ctx)
+                if persist == "observer":
+                    broker.add_observer(hydration.make_persister(set([Specs.s0])))
+            with quiet_stderr() if persist == "observer" else contextlib.nullcontext():
+                broker = dr.run(dr.get_dependency_graph(Specs.s0), broker)
             got = flat(broker.get(Impl.s0))
             for extra in flat(broker.get(Specs.s0)):      # normally the very same objects
                 if not any(extra is g for g in got):
@@ -558,9 +714,30 @@ def check_contain(case):
             providers.extend(got)
             if not got:
                 rejected += 1
-        served_in, crossing = judge_providers(providers, rroot, base, by_real, raw, labels)
+        served_in, crossing = judge_providers(providers, rroot, base, by_real, raw, labels, read=read,
+                                              filtered=bool(pats))
+        if persist == "after":
+            if k in H_DIRECT:
+                persist_direct(providers, out)
+            else:
+                with quiet_stderr():
+                    hydration.dehydrate(Specs.s0, broker)
+        if persist:
+            labels.append("persist=" + persist)
+            if judge_archive(out, rroot, base, labels):
+                labels.append("persisted:" + ("raw-copy" if raw else "filtered-text" if pats else "text"))
         if served_in:
             labels.append("served-inside")
+            if pats and case["ctx"] == "host":
+                labels.append("served-by-host-side-pre-filter")
+        # which ways out were open while the probe named something outside the root (refusals that are earned)
+        if any(l.startswith(("names:outside-file", "names:prefix-sibling-file")) for l in labels):
+            if pats and case["ctx"] == "host":
+                labels.append("outside-file-named:host-side-pre-filter" + ("+stream-first" if read == "stream" else ""))
+            elif not raw and read == "stream":
+                labels.append("outside-file-named:stream-first")
+            if persist:
+                labels.append("outside-file-named:persisted-" + ("raw-copy" if raw else "text"))
         if rejected:
             labels.append("rejected-some")
     has_dd = any(".." in s.split("/") for s in probe.get("paths", []) + [probe.get("tmpl") or ""] +
@@ -587,6 +764,14 @@ def _noise(draw, path):
     while p.startswith("//"):
         p = p[1:]
     return p
+
+
+# filters of a filterable spec: None = not filterable; [] = filterable, nobody has added a filter (a host skips
+# such a spec); every line of a tree file is "LOC<path> first" / "LOC<path> second line"
+C_FILTERS = ["LOC", "first", "second", "second line", "no-such-text", "conf", "secret", "-x", "etc/"]
+_c_filter = st.integers(0, 9).flatmap(
+    lambda r: st.none() if r < 4 else st.just([]) if r == 4 else
+    st.lists(st.sampled_from(C_FILTERS), min_size=1, max_size=2, unique=True))
 
 
 @st.composite
@@ -698,6 +883,11 @@ def _c_case(draw):
     kind = draw(st.sampled_from(["TextFileProvider", "RawFileProvider", "simple_file", "glob_file",
                                  "first_file", "foreach_collect"]))
     probe = {"kind": kind, "raw": draw(st.booleans())}
+    # the ways content leaves a provider: .content / .stream() (whichever comes first really reads the file), of a
+    # plain spec or of a filterable one with filters (host: grep over the file), and the persisted copy
+    probe["filter"] = draw(_c_filter)
+    probe["read"] = draw(st.sampled_from(["content", "content", "stream"]))
+    case["persist"] = draw(st.sampled_from([None, None, None, "observer", "observer", "after"]))
     if kind in ("TextFileProvider", "RawFileProvider"):
         probe["paths"] = [path() for _ in range(draw(st.integers(1, 4)))]
     elif kind == "simple_file":
@@ -750,7 +940,7 @@ H_KINDS = H_DIRECT + ("simple_file", "glob_file", "first_file", "foreach_collect
 
 
 def h_content(rel):
-    return "LOC<%s>\nsecond line of %s\n" % (rel, rel.rsplit("/", 1)[-1])
+    return loc_content(rel)
 
 
 def h_entries():
@@ -803,7 +993,8 @@ def check_revisit(case):
     from insights.core import spec_factory as sf
     from insights.core.context import HostContext, HostArchiveContext
     from insights.core.plugins import datasource
-    from insights.core import dr
+    from insights.core.serde import Hydration
+    from insights.core import dr, filters
     ents, contents = h_entries()
     labels = []
     nontrivial = False
@@ -831,21 +1022,33 @@ def check_revisit(case):
             r = step["root"] % len(H_LEVELS)
             rroot = os.path.join(base, H_LEVELS[r])               # fixed real directories
             root = rroot + ("/" if step.get("rootform") == "slash" else "")
-            kind, raw, paths = probe["kind"], bool(probe.get("raw")), list(probe["paths"])
+            kind, paths = probe["kind"], list(probe["paths"])
+            raw = kind == "RawFileProvider" if kind in H_DIRECT else bool(probe.get("raw"))
             if probe["ctx"] == "host":
                 ctxcls, ctx = HostContext, RecordingHostContext(root, real_prefixes=[base])
             else:
                 ctxcls, ctx = HostArchiveContext, HostArchiveContext(root)
             labels += ["kind=" + kind, "ctx=" + probe["ctx"], "root=%d" % r]
+            # the filters belong to the datasource (evaluated again: the same ones); how the providers are read
+            # and whether the evaluation is persisted (each one into an output directory of its own) to the step
+            pats = probe.get("filter") if not raw else None
+            persist, read = step.get("persist"), step.get("read", "content")
+            out = os.path.join(base, "o", "e%d" % k)
+            where = "step %d of the history (after %d tree changes): " % (k, epoch)
+            if pats is not None:
+                labels.append("filterable-with-filters" if pats else "filterable-without-filters")
             providers = []
             if kind in H_DIRECT:
-                cls = sf.RawFileProvider if kind == "RawFileProvider" else sf.TextFileProvider
-                raw = kind == "RawFileProvider"
+                cls = sf.RawFileProvider if raw else sf.TextFileProvider
+                if pats is not None and pid not in built:
+                    built[pid] = filter_datasource(ctxcls, pats, attr="f%d" % pid)
                 for p in paths:
                     try:
-                        providers.append(cls(p, root=root, ctx=ctx))
+                        providers.append(cls(p, root=root, ds=built.get(pid), ctx=ctx))
                     except Exception:  # noqa - every refusal is fine
                         pass
+                if persist == "observer":
+                    persist_direct(providers, out)
             else:
                 if pid not in built:
                     pk = sf.RawFileProvider if raw else sf.TextFileProvider
@@ -869,20 +1072,41 @@ def check_revisit(case):
                     multi = kind in ("glob_file", "foreach_collect")
                     impls = dict(extra)
                     impls[attr] = ds
-                    _, Specs, Impl = make_specset({attr: sf.RegistryPoint(multi_output=multi, raw=raw)}, impls)
+                    _, Specs, Impl = make_specset({attr: sf.RegistryPoint(multi_output=multi, raw=raw,
+                                                                          filterable=pats is not None)}, impls)
+                    if pats:
+                        filters.add_filter(getattr(Specs, attr), list(pats))
                     built[pid] = (Specs, Impl, attr)
                 Specs, Impl, attr = built[pid]
                 broker = dr.Broker()
                 broker[ctxcls] = ctx
-                broker = dr.run(dr.get_dependency_graph(getattr(Specs, attr)), broker)
+                if persist:
+                    hydration = Hydration(out, ctx)
+                    if persist == "observer":
+                        broker.add_observer(hydration.make_persister(set([getattr(Specs, attr)])))
+                with quiet_stderr() if persist == "observer" else contextlib.nullcontext():
+                    broker = dr.run(dr.get_dependency_graph(getattr(Specs, attr)), broker)
                 providers = flat(broker.get(getattr(Impl, attr)))
                 for more in flat(broker.get(getattr(Specs, attr))):
                     if not any(more is g for g in providers):
                         providers.append(more)
             before = len(labels)
-            served, _ = judge_providers(providers, rroot, base, by_real, raw, labels,
-                                        where="step %d of the history (after %d tree changes): " % (k, epoch))
+            served, _ = judge_providers(providers, rroot, base, by_real, raw, labels, where=where, read=read,
+                                        filtered=bool(pats))
             del labels[before:]
+            if persist == "after":
+                if kind in H_DIRECT:
+                    persist_direct(providers, out)
+                else:
+                    with quiet_stderr():
+                        hydration.dehydrate(getattr(Specs, attr), broker)
+            if persist:
+                if judge_archive(out, rroot, base, [], where=where):
+                    labels.append("persisted:" + ("raw-copy" if raw else "filtered-text" if pats else "text"))
+            if served and pats and probe["ctx"] == "host":
+                labels.append("served-by-host-side-pre-filter")
+            if read == "stream" and not raw:
+                labels.append("read=stream-first")
             # --- what this evaluation re-visits (labels / non-triviality only)
             now = set()
             for p in providers:
@@ -906,6 +1130,10 @@ def check_revisit(case):
                 accepted.setdefault(d, []).append((r, epoch))
             labels.append("served" if served else "nothing-served")
     return {"nontrivial": nontrivial, "labels": sorted(set(labels))}
+
+
+_h_read = st.sampled_from(["content", "content", "stream"])
+_h_persist = st.sampled_from([None, None, None, None, "observer", "after"])
 
 
 @st.composite
@@ -959,7 +1187,8 @@ def _h_case(draw):
             # the datasource of an earlier evaluation once more (same object, same relative paths), under
             # the same or another of the nested roots
             steps.append({"op": "eval", "again": draw(st.integers(0, n_evals - 1)), "root": a_root(),
-                          "rootform": draw(st.sampled_from(["plain", "plain", "slash"]))})
+                          "rootform": draw(st.sampled_from(["plain", "plain", "slash"])),
+                          "read": draw(_h_read), "persist": draw(_h_persist)})
             n_evals += 1
         else:
             root = a_root()
@@ -968,7 +1197,8 @@ def _h_case(draw):
             n = 1 if kind == "simple_file" else draw(st.integers(1, 3))
             step = {"op": "eval", "root": root, "rootform": draw(st.sampled_from(["plain", "plain", "slash"])),
                     "ctx": draw(st.sampled_from(["host", "archive"])), "kind": kind, "raw": draw(st.booleans()),
-                    "paths": [a_path(root, globbing) for _ in range(n)]}
+                    "paths": [a_path(root, globbing) for _ in range(n)],
+                    "filter": draw(_c_filter), "read": draw(_h_read), "persist": draw(_h_persist)}
             if kind == "foreach_collect":
                 step["tmpl"] = draw(st.sampled_from(["%s", "/%s"]))
             steps.append(step)
